@@ -216,6 +216,7 @@ func (svc *service) stop() {
 	if !doit {
 		return
 	}
+	defer verifStopped(svc.conn)
 
 	// Close quit channel, effectively telling all the goroutines it's time to quit
 	if svc.done != nil {
